@@ -333,9 +333,9 @@ def obligations(tier):
            bounds={'objects': 6, 'value_kinds': 8, 'str_len': [1, 3, 4, 6, 10]}),
         Ob('constructor', ob_ctor, {}, desc='unknown constructor attributes raise DiffXUnknownOptionError',
            bounds={'names': 6, 'classes': 6}),
-        Ob('equality', ob_equality, dict(maxf=1 if quick else 3), must_reach=['BaseDiffXSection.__eq__'], path_timeout=30,
+        Ob('equality', ob_equality, dict(maxf=1 if quick else 2), must_reach=['BaseDiffXSection.__eq__'], path_timeout=30,
            desc='A == B <=> same shape and field-wise equal options/contents (fields independently symbolic); != is the '
-                'negation; equal trees serialise to identical bytes', bounds={'changes': [0, 1], 'files': [0, 1 if quick else 3]}),
+                'negation; equal trees serialise to identical bytes', bounds={'changes': [0, 1], 'files': [0, 1 if quick else 2]}),
         Ob('perturbation', ob_perturb, {}, must_reach=['BaseDiffXSection.__eq__'],
            desc='two identically built trees are equal; changing any single option or content (symbolic new value, assumed '
                 'different) in any section makes the trees unequal', bounds={'sections': 9}),
